@@ -5,7 +5,7 @@ strings, well-formed and malformed payloads), on a member that already holds dat
 answers every request (value or error) and stays responsive.  No Lean model for the handler bodies."""
 NO_MODEL = True
 HEADER = 3
-REQUIRED_SHAPES = ["skeleton_mutations", "malformed_raw_entry", "all_commands_covered", "numeric_extremes", "member_alive_checked"]
+REQUIRED_SHAPES = ["entry_size_around_table_size", "skeleton_mutations", "malformed_raw_entry", "all_commands_covered", "numeric_extremes", "member_alive_checked"]
 
 NUM = [b"0", b"1", b"-1", b"6", b"7", b"100000", b"9223372036854775807", b"-9223372036854775808", b"18446744073709551615",
        b"99999999999999999999999", b"1.5", b"-0.5", b"NaN", b"abc", b""]
@@ -125,6 +125,16 @@ class Gen:
                     yield "c.rawcmd %d %s" % (r.randrange(2), " ".join(hx(t) for t in v))
             orc.hit("skeleton_mutations")
             yield "c.get cli 0 h %s" % hx(b"k2")
+        # values whose entry (29 bytes of metadata + key + value) is just below, at and just above the table size (4096): stored
+        # or refused with the documented error - an answer either way, and the member goes on serving
+        for cmd in (b"dm.put", b"dm.getput"):
+            for d in (-60, -30, -29, -28, -3, -1, 0, 1, 29, 30, 100):
+                key = b"big%d" % (d + 100)
+                val = b"S" * (4096 - 29 - len(key) + d)
+                m = r.randrange(2)
+                yield "c.rawcmd %d %s" % (m, " ".join(hx(t) for t in [cmd, b"h", key, val]))
+                yield "c.get cli %d h %s" % (1 - m, hx(b"k1"))
+                orc.hit("entry_size_around_table_size")
         # raw entries that are not encoded entries: stored verbatim by DM.PUTENTRY, then read back
         for j in range(40):
             key = b"p%d" % j
